@@ -45,7 +45,7 @@ type c13Params struct {
 func (c13) ID() string    { return "C13" }
 func (c13) Level() string { return "exploration" }
 func (c13) Rule() string {
-	return "each case draws a scenario (established connection / first use racing with the handshake / Close racing with in-flight calls / Close against Writes blocked in a full transport / Close racing with a handshake in flight whose peer is silent / pa adapter first use; on dtlcp also the server end while copies of the client's last flight make it re-send its own from inside Read), stack (tlcp, dtlcp with ReadFrom+WriteTo), suite, 1-3 writer tasks, 1-3 reader tasks, 0-2 auxiliary tasks (ConnectionState, deadline setters, extra Handshake callers) on ONE connection, and a seeded schedule: the vs kernel decides every pre-emption at every mutex operation, atomic operation and transport call of the library. Built with -race; the kernel's hand-over is invisible to the race detector, so an unsynchronised access pair is reported whatever the distance between the two accesses. Oracle: no race report, no deadlock, every Handshake caller sees the same result, every successful Write appears contiguously and exactly once in the peer's stream, frames delivered to concurrent readers are exactly the frames sent (no loss, no duplicate), after Close every pending call returns. distinct = distinct schedule traces; non-trivial = at least two tasks were in calls on the connection at the same time (kernel counts lock contention / interleaved steps)"
+	return "each case draws a scenario (established connection / first use racing with the handshake / Close racing with in-flight calls / Close against Writes blocked in a full transport / a write deadline set by another task expiring while Writes are blocked, then cleared / Close racing with a handshake in flight whose peer is silent / pa adapter first use; on dtlcp also the server end while copies of the client's last flight make it re-send its own from inside Read), stack (tlcp, dtlcp with ReadFrom+WriteTo), suite, 1-3 writer tasks, 1-3 reader tasks, 0-2 auxiliary tasks (ConnectionState, deadline setters, extra Handshake callers) on ONE connection, and a seeded schedule: the vs kernel decides every pre-emption at every mutex operation, atomic operation and transport call of the library. Built with -race; the kernel's hand-over is invisible to the race detector, so an unsynchronised access pair is reported whatever the distance between the two accesses. Oracle: no race report, no deadlock, every Handshake caller sees the same result, every successful Write appears contiguously and exactly once in the peer's stream, frames delivered to concurrent readers are exactly the frames sent (no loss, no duplicate), after Close every pending call returns. distinct = distinct schedule traces; non-trivial = at least two tasks were in calls on the connection at the same time (kernel counts lock contention / interleaved steps)"
 }
 func (c13) Components() (real, stub []string) {
 	return []string{"tlcp.Conn, dtlcp.Conn, pa.ProtocolSwitchServerConn (instrumented): all locking and atomics real (sync.Mutex via TryLock loop)", "Go race detector"},
@@ -97,7 +97,11 @@ func drawC13(src *vs.Src) *c13Params {
 	if p.Stack == DTLCP && p.Scenario == "established" && src.Bool(1, 2) {
 		p.Dwell = 1 + src.Intn(3)
 	}
-	if p.Scenario == "close-blocked" && src.Bool(1, 2) {
+	if p.Scenario == "close-blocked" && src.Bool(1, 3) {
+		// the write deadline, set by another task, expires while Writes are blocked in a full transport; it is
+		// cleared again, the peer starts reading, the writers go on
+		p.Scenario = "deadline-blocked"
+	} else if p.Scenario == "close-blocked" && src.Bool(1, 2) {
 		p.Scenario = "close-hs"
 		p.HSBy = pickStr(src, []string{"handshake", "read", "write"})
 		p.Role = pickStr(src, []string{"client", "server"})
@@ -188,6 +192,9 @@ func (c13) Run(c *Case, src *vs.Src) *Result {
 	}
 	if p.Scenario == "close-hs" {
 		return runC13CloseHS(c, src, p, r)
+	}
+	if p.Scenario == "deadline-blocked" {
+		return runC13DeadlineBlocked(c, src, p, r)
 	}
 	w := NewWorld(c.Seed, src)
 	w.K.MaxElapsed = 120 * time.Second
@@ -674,7 +681,14 @@ func runC13Blocked(c *Case, src *vs.Src, p *c13Params, r *Result) *Result {
 type c13Shared struct {
 	state   int // 0 not ready, 1 ready, 2 handshake failed
 	writing int
+	done    int
 }
+
+//go:norace
+func (s *c13Shared) finish() { s.done++ }
+
+//go:norace
+func (s *c13Shared) finished() int { return s.done }
 
 //go:norace
 func (s *c13Shared) set(v int) { s.state = v }
@@ -756,5 +770,133 @@ func runC13CloseHS(c *Case, src *vs.Src, p *c13Params, r *Result) *Result {
 		r.Violate("close-blocked", sigp+" pending-call-not-unblocked", "the pending %s came back only after %v (error %v)", p.HSBy, callBack, callErr)
 	}
 	r.Stat("close_during_handshake", 1)
+	return r
+}
+
+// runC13DeadlineBlocked: writers are blocked in a full transport when another task's write deadline expires; the
+// deadline is then cleared and the peer starts to read. Whatever the writers are told afterwards must be true:
+// every frame whose Write returned nil is in the peer's stream, whole and once.
+func runC13DeadlineBlocked(c *Case, src *vs.Src, p *c13Params, r *Result) *Result {
+	sigp := "C13 tlcp deadline-blocked"
+	w := NewWorld(c.Seed, src)
+	w.K.MaxElapsed = 60 * time.Second
+	env := NewEnv(w)
+	cc := &EPConf{Suites: []uint16{p.Suite}, ServerName: "server.test"}
+	sc := &EPConf{Suites: []uint16{p.Suite}, Certs: []string{"server_sig", "server_enc"}}
+	pair := NewPair(TLCP, env, cc, sc, "c", "s", "client:1", "server:443")
+	st := &c13Shared{}
+	const flen = 1000
+	var hsErr, peerEnd error
+	var stream []byte
+	type wres struct{ ok, failed []int }
+	results := make([]*wres, p.Writers)
+	for i := range results {
+		results[i] = &wres{}
+	}
+	w.Go("peer", func() {
+		if err := pair.S.Handshake(); err != nil {
+			return
+		}
+		vs.Block(func() bool { return st.get() >= 3 }, vs.Now().Add(50*time.Second))
+		buf := make([]byte, 4096)
+		for {
+			pair.S.SetReadDeadline(vs.Now().Add(5 * time.Second))
+			n, err := pair.S.Read(buf)
+			stream = append(stream, buf[:n]...)
+			if err != nil {
+				peerEnd = err
+				break
+			}
+		}
+		pair.S.Close()
+	})
+	w.Go("ut", func() {
+		if err := pair.C.Handshake(); err != nil {
+			hsErr = err
+			st.set(2)
+			return
+		}
+		pair.Pipe.C.SetLimit(3000)
+		st.set(1)
+	})
+	for i := 0; i < p.Writers; i++ {
+		i := i
+		w.Go(fmt.Sprintf("ut-writer%d", i), func() {
+			defer st.finish()
+			vs.Block(func() bool { return st.get() != 0 }, time.Time{})
+			if st.get() == 2 {
+				return
+			}
+			fails := 0
+			for k := 0; k < 12 && fails < 4; k++ {
+				st.add(1)
+				_, err := pair.C.Write(c13FrameN(i, k, flen))
+				st.add(-1)
+				if err != nil {
+					results[i].failed = append(results[i].failed, k)
+					fails++
+					// wait for the deadline to be cleared before trying again
+					vs.Block(func() bool { return st.get() >= 3 }, vs.Now().Add(10*time.Second))
+					continue
+				}
+				results[i].ok = append(results[i].ok, k)
+			}
+		})
+	}
+	w.Go("ut-deadliner", func() {
+		vs.Block(func() bool { return st.get() != 0 }, time.Time{})
+		if st.get() == 2 {
+			return
+		}
+		vs.Block(func() bool { return pair.Pipe.S.Pending() >= 3000 && st.inWrite() > 0 }, vs.Now().Add(5*time.Second))
+		for i := 0; i < p.CloseAt; i++ {
+			vs.Yield()
+		}
+		t := pair.C.(tEP)
+		t.Conn.SetWriteDeadline(vs.Now().Add(time.Second))
+		vs.Sleep(1500 * time.Millisecond)
+		t.Conn.SetWriteDeadline(time.Time{})
+		pair.Pipe.C.SetLimit(0)
+		st.set(3)
+		vs.Block(func() bool { return st.finished() == p.Writers }, vs.Now().Add(30*time.Second))
+		pair.C.Close()
+	})
+	reason, unf := w.Run()
+	w.Finish(r, sigp)
+	r.Key = r.Trace
+	r.Outcome = reason
+	if hsErr != nil {
+		r.Violate("setup", sigp+" handshake-failed", "%v", hsErr)
+		return r
+	}
+	if reason != vs.Done {
+		r.Violate("deadlock", sigp+" "+reason, "run ended with %q, unfinished tasks %v", reason, unf)
+		return r
+	}
+	// what arrived: whole frames only (each frame is one record); a damaged tail ends the stream with an error
+	ids, bad := c13ParseFramesN(stream, flen)
+	if bad != "" {
+		r.Violate("torn-write", sigp+" torn-write", "peer's stream: %s (stream of %d bytes, ended with %v)", bad, len(stream), peerEnd)
+	}
+	seen := map[[2]int]int{}
+	for _, id := range ids {
+		seen[id]++
+	}
+	nOK, nFailed := 0, 0
+	for wi, res := range results {
+		nFailed += len(res.failed)
+		for _, k := range res.ok {
+			nOK++
+			if seen[[2]int{wi, k}] != 1 {
+				r.Violate("lost-write", sigp+" write-reported-ok-but-not-delivered", "writer %d frame %d: Write returned nil, but the frame appears %d times in the peer's stream (%d frames arrived, the peer's read ended with %v); writes that failed before: %v", wi, k, seen[[2]int{wi, k}], len(ids), peerEnd, res.failed)
+				return r
+			}
+		}
+	}
+	if nFailed == 0 {
+		r.Violate("setup", sigp+" no-timeout", "no Write ran into the write deadline")
+	}
+	r.Stat("writes_timed_out", nFailed)
+	r.Stat("writes_ok", nOK)
 	return r
 }
